@@ -642,10 +642,16 @@ def check_density_count(case, pts, out, stats):
     grid = (e.get("method") == "grid") or (e.get("cls") == "Grid")
     stats["density_judged"] = stats.get("density_judged", 0) + 1
     if grid:
-        # every leaf of a Boolean expression rounds its own share up
-        slack = sum(1 for k_ in G.kinds(dom) if k_ in ("iv", "circ", "par", "tri", "sph")) - 1
-        if not ((1 if want_hi >= 16 else 0) <= rows <= want_hi + max(slack, 0)):
-            out.append(viol("C10", "density-grid-count", "not-in-[0|1,ceil(d*mu)]", "", rows=rows, want=want_hi))
+        # judged for primitives only: a Boolean combination keeps the grid points of its
+        # first operand that survive the membership test, whose number is d*mu only up to
+        # the discrepancy of that grid
+        base_k = dom
+        while base_k["k"] in ("transl", "rot"):
+            base_k = base_k["d"]
+        if base_k["k"] in ("union", "cut", "inter"):
+            return
+        if not ((1 if want_hi >= 16 else 0) <= rows <= want_hi):
+            out.append(viol("C10", "density-grid-count", "grid-count-out-of-range", "", rows=rows, want=want_hi))
     elif cls == "exact":
         if not (want_lo <= rows <= want_hi):
             out.append(viol("C10", "density-count", "rows!=ceil(d*mu)", "", rows=rows, want=want_hi,
